@@ -19,6 +19,8 @@ class Scalar (K : Type) where
   neg : K → K
   /-- `x ** -1` -/
   inv : K → K
+  /-- real division (used where the code divides directly, e.g. SymPy's `solve`) -/
+  div : K → K → K
   /-- real power with a real exponent -/
   pow : K → K → K
   /-- real power with an integer exponent (`np.power(float64, int64)`) -/
@@ -33,6 +35,10 @@ class Scalar (K : Type) where
   trunc : K → Option Int
   isZero : K → Bool
   beq : K → K → Bool
+  /-- the comparison `!=` applied by `match_template` to values recovered by SymPy's solver.
+  In exact arithmetic this is equality; the binary64 instance uses a relative tolerance because
+  the solver's internal arithmetic (a contract boundary) is not IEEE double arithmetic. -/
+  solveEq : K → K → Bool
   finite : K → Bool
 
 /-- A number as NumPy / Python see it: the promotion lattice is int < real < complex. -/
@@ -165,6 +171,12 @@ def recip : Num K → Num K
   | int i => real (Scalar.inv (Scalar.ofInt i))
   | real x => real (Scalar.inv x)
   | cplx a b => let r := Scalar.cinv (a, b); cplx r.1 r.2
+
+/-- real quotient `a / b` of two non-complex numbers (complex operands: via the reciprocal) -/
+def div (a b : Num K) : Num K :=
+  match a.toReal, b.toReal with
+  | some x, some y => real (Scalar.div x y)
+  | _, _ => a.mul b.recip
 
 /-- `np.power(a, b)`; integer to a negative integer power is refused by NumPy -/
 def pow : Num K → Num K → Except Err (Num K)
